@@ -681,10 +681,20 @@ def main():
            "view of a parameter, self = the receiver, local = an object created inside the function. -/",
            "def stores : List (String × String × String × Nat) := ["]
     eff.append(",\n".join(f'  ("{a}", "{b}", "{c}", {d})' for a, b, c, d in rows))
+    un = []
+    for dirpath, _, files in sorted(os.walk(os.path.join(REPO, "opfython"))):
+        for fn_ in sorted(files):
+            if fn_.endswith(".py"):
+                pth = os.path.join(dirpath, fn_)
+                for node in ast.walk(ast.parse(open(pth).read())):
+                    if isinstance(node, ast.Call) and ast.unparse(node.func) in ("np.empty", "np.empty_like", "numpy.empty", "np.ndarray"):
+                        un.append(f"{os.path.relpath(pth, REPO)}:{node.lineno}")
     cm = class_level_mutables()
     eff += ["]", "", f"/-- number of names declared `global` inside functions -/", f"def globalDecls : Nat := {n_global}", "",
             "/-- class attributes bound to a mutable container at class level (shared across instances) -/",
-            "def classLevelMutables : List String := [" + ", ".join(f'"{c}"' for c in cm) + "]", "", "end Opf.Gen"]
+            "def classLevelMutables : List String := [" + ", ".join(f'"{c}"' for c in cm) + "]", "",
+            "/-- allocations of uninitialised memory (`np.empty` …): their contents depend on the process history -/",
+            "def uninitialisedAllocs : List String := [" + ", ".join(f'"{c}"' for c in un) + "]", "", "end Opf.Gen"]
     write(os.path.join(GEN, "Effects.lean"), "\n".join(eff) + "\n")
 
     sites, ung = read_distance_sites()
